@@ -114,6 +114,7 @@ type ConnCfg struct {
 	DialDelayMs int    `json:"dialDelayMs,omitempty"`
 	Storage     string `json:"storage,omitempty"` // "" (library default) | payload | nopayload
 	NodeID      string `json:"nodeID,omitempty"`
+	Unreliable  bool   `json:"unreliable,omitempty"` // offer a second, unreliable transport (AsUnreliable)
 }
 
 type Scenario struct {
@@ -190,6 +191,7 @@ func NewDriver(sc *Scenario) *Driver {
 	if sc.WdMs > 0 {
 		d.wd = time.Duration(sc.WdMs) * time.Millisecond
 	}
+	d.b.Unreliable = sc.Conn.Unreliable
 	if sc.Conn.DialDelayMs > 0 {
 		d.b.dialDef = DialStep{Do: "ok", DelayMs: sc.Conn.DialDelayMs}
 	}
@@ -1084,7 +1086,15 @@ func (d *Driver) doSendChunk(st *Step) {
 	if st.C != 0 {
 		alias = uint32(st.C) // misaddressed chunk
 	}
-	inc.sendSync(&message.DownstreamChunk{StreamIDAlias: alias, UpstreamOrAlias: uoa,
-		StreamChunk: &message.StreamChunk{SequenceNumber: uint32(st.Seq), DataPointGroups: gs}},
+	msg := &message.DownstreamChunk{StreamIDAlias: alias, UpstreamOrAlias: uoa,
+		StreamChunk: &message.StreamChunk{SequenceNumber: uint32(st.Seq), DataPointGroups: gs}}
+	if inc.usrv != nil && dn.QoS == message.QoSUnreliable {
+		d.rec.Log("BSendChunk", "c", inc.c, "sid", dn.Sid, "alias", int(alias), "up", st.Up, "upF", st.UpF, "upAl", st.UpAl, "seq", st.Seq, "groups", lg, "path", "unreliable")
+		if err := inc.usrv.Write(msg); err != nil {
+			d.rec.Log("BSendFail", "c", inc.c, "of", "BSendChunk")
+		}
+		return
+	}
+	inc.sendSync(msg,
 		"BSendChunk", "sid", dn.Sid, "alias", int(alias), "up", st.Up, "upF", st.UpF, "upAl", st.UpAl, "seq", st.Seq, "groups", lg)
 }
